@@ -1,10 +1,28 @@
-"""C16 - bounded stand-in tier (native/b_c16.py through props/_qb.py)."""
+"""C16: write-frame of the composer modules decided on the real AST (S obligations) + bounded stand-in (snapshot and byte comparison)."""
+import sys
 from props import _qb
-LEVEL = 'exploration'
+from vlib.report import VERIF, REPO
+LEVEL = 'other'
 PID = 'C16'
 
 
 def run(rep, tier, seed):
+    sys.path.insert(0, VERIF)
+    from pyvc import srules
+    rep.explanation = ('"composing leaves the netlist as it was": frame obligation on the five composer modules -- every store, delete and mutating '
+                       'call targets the composer object, a container it created, or is one of the documented EDIF effects (S obligations from the '
+                       'real AST); repeatability, completeness of the output file and the frame itself are additionally observed by the bounded '
+                       'stand-in (snapshot before/after, byte comparison of repeated output)')
+    res = srules.rule_composer_frame(REPO)
+    for name, ok, detail in res:
+        rep.s(name, ok, detail)
+        if not ok:
+            rep.violation(name, 'composer write-frame: %s' % detail, replay={'kind': 'syntactic', 'rule': name, 'sites': detail})
+    if not res: rep.error('zero obligations generated for C16')
+    rep.trusted = ['pyvc/srules.py effect analysis (syntactic; receivers resolved to self / fresh locals / closure variables / fresh method results)']
+    rep.assumptions = ['read accessors of the IR (properties, views, get_* queries) are pure -- they are (S/coverage, S/views-read-only of C01)',
+                       'IR objects reach the composers only through parameters and attributes of the netlist (no global registry)',
+                       'repeatability of the emitted text is NOT decided deductively (bounded tier only)']
     _qb.run(rep, PID, tier, seed)
 
 
